@@ -53,6 +53,7 @@ N == [
   f20        |-> <<82, 69, 65, 68, 77, 69>>,   \* "README"
   f21        |-> <<108, 111, 110, 103, 102, 105, 108, 101, 110, 97, 109, 101, 51, 46, 116, 120, 116>>,   \* "longfilename3.txt"
   f22        |-> <<128512, 46, 116, 120, 116>>,   \* U+1F600 ".txt"
+  f23        |-> <<97, 98, 48, 48, 48>>,   \* "ab000" (the first numbered replacement of "ab" / "AB")
   d1         |-> <<115, 117, 98>>,   \* "sub"
   d2         |-> <<83, 85, 66>>,   \* "SUB"
   d3         |-> <<100, 105, 114, 46, 111, 110, 101>>,   \* "dir.one"
@@ -67,7 +68,7 @@ N == [
   star_txt   |-> <<46, 116, 120, 116>> ]   \* ".txt" (pattern "*.txt")
 
 FileNames == {N.f1, N.f2, N.f3, N.f4, N.f5, N.f6, N.f7, N.f8, N.f9, N.f10, N.f11, N.f12, N.f13, N.f14,
-              N.f15, N.f16, N.f17, N.f18, N.f19, N.f20, N.f21, N.f22}
+              N.f15, N.f16, N.f17, N.f18, N.f19, N.f20, N.f21, N.f22, N.f23}
 DirNames  == {N.d1, N.d2, N.d3, N.d4, N.d5, N.d6, N.d7}
 Lvl(i)    == <<108, 48 + i>>                      \* "l1" .. "l9": the chain of directories
 
@@ -79,7 +80,8 @@ L(n, t) == [n |-> n, k |-> "symlink", c |-> "", t |-> t]
 Collide(a, b, isdir) == \E l \in 1..3 : Mangled(a, isdir, l) = Mangled(b, isdir, l)
 \* the numbered replacement of a collides with the plain form of b
 NumberClash(a, b) == \E l \in 1..3 :
-    Take(Mangled(a, FALSE, l), 5) \o Digits3(0) \o <<DOT>> \o MangleFile(a, l).ext = Mangled(b, FALSE, l)
+    FreeNumbered(NumberingPrefix(a, FALSE, l, Mangled(a, FALSE, l)), MangleFile(a, l).ext, FALSE, {}, 0)
+        = Mangled(b, FALSE, l)
 
 FilePairs == {s \in SUBSET FileNames : Cardinality(s) = 2 /\ \E a, b \in s : a # b /\ Collide(a, b, FALSE)}
 DirPairs  == {s \in SUBSET DirNames : Cardinality(s) = 2 /\ \E a, b \in s : a # b /\ Collide(a, b, TRUE)}
@@ -223,14 +225,18 @@ Spec == Init /\ [][Next]_st
 DistinctLegalInv == Mode = "design" => DesignOK(st)
 
 \* every minimal counterexample once (supersets of a counterexample are not explored), and what
-\* the model assigns to every sequence of one or two siblings (conformance of the transcription)
+\* the model assigns to every sequence of one or two siblings and to every sequence of three
+\* whose last member is numbered (the search for a free number passes a used identifier only
+\* there) - conformance of the transcription
 DesignRec(s) == [level |-> s.lvl, isdir |-> s.isdir, names |-> s.sibs,
                  idents |-> MangleWithNumbering(Sibs(s), s.lvl),
                  spans |-> Len(s.sibs) > 0 /\ PrefixSpansSeparator(Last(s.sibs), s.isdir, s.lvl)]
+ThirdNumbered(s) ==
+    Len(s.sibs) = 3 /\ MangleWithNumbering(Sibs(s), s.lvl)[3] # Mangled(s.sibs[3], s.isdir, s.lvl)
 DumpDesign ==
     Mode = "design" =>
         IF DesignOK(st)
-        THEN (Len(st.sibs) \in {1, 2}) => PrintT(<<"MODEL", ToJson(DesignRec(st))>>)
+        THEN (Len(st.sibs) \in {1, 2} \/ ThirdNumbered(st)) => PrintT(<<"MODEL", ToJson(DesignRec(st))>>)
         ELSE PrintT(<<"DESIGN", ToJson(DesignRec(st))>>) /\ FALSE
 
 DumpCases ==
